@@ -12,6 +12,7 @@ structure DState where
   app : Option DocApp := none       -- application element being read
   doc : List DocApp := []           -- document being read (reversed)
   stash : List Doc := []            -- documents waiting for `dconstruct` (reversed)
+  saved : Array Msg := #[]          -- messages set aside by `msave` (answers the scripted handler returns)
 
 def Dia.Ty.idx : Ty → Nat
   | .address => 0 | .ipv4 => 1 | .ipv6 => 2 | .identity => 3 | .uri => 4 | .enumerated => 5 | .float32 => 6
@@ -83,6 +84,29 @@ def fxTy (s : String) : Option Ty :=
   | "time" => some .time | "ipv4" => some .ipv4 | "u64" => some .unsigned64 | "i64" => some .integer64
   | "f64" => some .float64 | "ipv6" => some .ipv6
   | _ => none
+
+/-- `d:<hex>` data chunk, `p` pending, `e` end of stream, `f` i/o error -/
+def parseREvs (s : String) : Option (List REv) :=
+  if s = "-" then some [] else
+  (s.splitOn ",").mapM fun t =>
+    if t = "p" then some .pending else if t = "e" then some .eof else if t = "f" then some .fail
+    else if t.startsWith "d:" then (unhex? (t.drop 2).toString).map .data else none
+
+/-- `a<k>` accept at most k octets, `p` pending, `f` fail -/
+def parseWEvs (s : String) : Option (List WEv) :=
+  if s = "-" then some [] else
+  (s.splitOn ",").mapM fun t =>
+    if t = "p" then some .pending else if t = "f" then some .fail
+    else if t.startsWith "a" then (t.drop 1).toString.toNat?.map .accept else none
+
+def sdecLoop (cfg : Cfg) (dict : Lookup) : Nat → List REv → List String → List String
+  | 0, _, acc => acc.reverse
+  | n+1, evs, acc =>
+    let r := Codec.decode cfg dict evs
+    match r.out with
+    | .ok m => sdecLoop cfg dict n r.rest (("ok:" ++ m.dump ++ "@" ++ toString r.consumed) :: acc)
+    | .err _ => (("err@" ++ toString r.consumed) :: acc).reverse
+    | .panic => (("panic@" ++ toString r.consumed) :: acc).reverse
 
 def statusStr : Status → String
   | .ok => "ok" | .err => "err" | .bad => "bad"
@@ -239,6 +263,34 @@ def step (s : DState) (line : String) : DState × String :=
     match unhex? h with
     | some bs => (s, decLine s.cfg s.ms.dict bs)
     | none => plain s "bad-op"
+  | ["msave"] => plain { s with saved := s.saved.push s.ms.msg, ms := { s.ms with msg := Msg.new 272 4 0 0 0 } } "ok"
+  | ["mclear"] => plain { s with saved := #[] } "ok"
+  | ["sdec", n, evs] =>
+    match n.toNat?, parseREvs evs with
+    | some n, some evs => plain s (String.intercalate ";" (sdecLoop s.cfg s.ms.dict.lookup n evs []))
+    | _, _ => plain s "bad-op"
+  | ["senc", w] =>
+    match parseWEvs w with
+    | some w =>
+      let e := s.ms.msg.enc
+      (match e.err with
+       | some _ => plain s "err -"
+       | none =>
+         let (ok, wr, _) := writeAll e.bytes w
+         (s, (if ok then "ok " else "err ") ++ hexOrDash wr ++ " | " ++ hexOrDash (Spec.encode s.ms.msg.abs) ++ " | -"))
+    | none => plain s "bad-op"
+  | ["serve", hs, rd, wr] =>
+    let hres : Option (List HRes) :=
+      if hs = "-" then some [] else
+      (hs.splitOn ",").mapM fun t =>
+        if t = "err" then some HRes.err
+        else if t.startsWith "a" then (t.drop 1).toString.toNat?.bind fun i => s.saved[i]?.map HRes.ok else none
+    match hres, parseREvs rd, parseWEvs wr with
+    | some hres, some rd, some wr =>
+      let log := serve s.cfg s.ms.dict.lookup hres rd wr
+      plain s ("calls=[" ++ String.intercalate ";" (log.calls.map Msg.dump) ++ "] written=" ++ hexOrDash log.written ++
+        " end=done")
+    | _, _, _ => plain s "bad-op"
   | ["fx", t, h] =>
     match fxTy t, unhex? h with
     | some ty, some bs =>
